@@ -81,7 +81,7 @@ func (s *raceSink) Sync() error {
 func (s *raceSink) Close() error { return nil }
 
 type c09op struct {
-	kind, a, b int
+	kind, a, b, c int // a: which shared object, b and c: which variant
 }
 
 type c09world struct {
@@ -103,7 +103,11 @@ var c09kindNames = [...]string{"log", "sugar", "check+write", "derive+log", "lev
 
 func runC09(c *Ctx) {
 	g, r := c.G, c.R
-	simsync.SetPolicy(pick(g, simsync.PoolLIFO, simsync.PoolLIFO, simsync.PoolRandom), uint64(g.Draw(1<<16))+1, 0)
+	// a recycled object carries a happens-before edge from its Put to its Get
+	// (as with sync.Pool); with a single global free list that edge would
+	// order almost every pair of tasks and hide races between them, whereas
+	// real pools are per-P. Half of the runs therefore never recycle.
+	simsync.SetPolicy(pick(g, simsync.PoolFresh, simsync.PoolFresh, simsync.PoolLIFO, simsync.PoolRandom), uint64(g.Draw(1<<16))+1, 0)
 	w := &c09world{}
 	w.lvl = zap.NewAtomicLevelAt(stdLevels[g.Draw(3)])
 	clk := zsim.NewSimClock(r, drawEpoch(g))
@@ -162,6 +166,8 @@ func runC09(c *Ctx) {
 		base.WithLazy(zap.String("a", "b")).With(zap.Int("c", 1)),
 		base.WithLazy(zap.Int("l1", 1)).WithLazy(zap.Int("l2", 2)),
 		base.With(zap.Reflect("ctx", map[string]any{"k": []int{1, 2}}), zap.Int("after", 1)),
+		base.With(zap.Any("cfg", struct{ A, B int }{1, 2})).Named("r"),
+		base.Named("r2").With(zap.Reflect("m", map[string]string{"x": "y"})),
 	}
 	for _, l := range w.loggers {
 		w.sugars = append(w.sugars, l.Sugar())
@@ -200,10 +206,22 @@ func runC09(c *Ctx) {
 	}
 	progs := make([][]c09op, nTasks)
 	usesBWS := false
+	// "burst": in a third of the runs every task starts with the same
+	// operation on the same shared object, so that first use — and any
+	// unsynchronised state behind that operation — happens under contention
+	// before anything else has ordered the tasks
+	burst := g.Chance(3)
+	burstOp := c09op{kind: enabledKinds[g.Draw(len(enabledKinds))], a: g.Draw(9), b: g.Draw(8), c: g.Draw(16)}
 	for t := range progs {
+		if burst {
+			progs[t] = append(progs[t], burstOp)
+			if burstOp.kind == 11 {
+				usesBWS = true
+			}
+		}
 		n := 1 + g.Draw(maxOps)
 		for i := 0; i < n; i++ {
-			op := c09op{kind: enabledKinds[g.Draw(len(enabledKinds))], a: g.Draw(7), b: g.Draw(8)}
+			op := c09op{kind: enabledKinds[g.Draw(len(enabledKinds))], a: g.Draw(9), b: g.Draw(8), c: g.Draw(16)}
 			if op.kind == 11 {
 				usesBWS = true
 			}
@@ -281,10 +299,13 @@ func c09exec(c *Ctx, w *c09world, t, i int, op c09op) {
 	lv := stdLevels[op.b%4]
 	switch op.kind {
 	case 0:
-		if op.a%3 == 0 {
+		if op.c%4 == 0 {
 			l.Log(lv, "m", zap.Int("t", t), zap.Reflect("r", map[string]int{"i": i}), zap.Error(errors.New("e")))
-		} else if op.a%3 == 1 {
+		} else if op.c%4 == 1 {
 			l.Log(lv, "rich", richFields(op.b+i, t)...)
+		} else if op.c%4 == 2 {
+			// from a deep call stack (stack capture beyond the pooled capacity)
+			c8recurse([]int{70, 130, 300}[op.c/4%3], func() { l.Log(lv, "deep", zap.Int("t", t), zap.Stack("st")) })
 		} else {
 			l.Log(lv, "m", zap.Int("t", t), zap.Int("i", i), zap.Duration("d", time.Second), zap.Error(errors.New("e")))
 		}
@@ -305,9 +326,9 @@ func c09exec(c *Ctx, w *c09world, t, i int, op c09op) {
 		var ch *zap.Logger
 		switch op.b % 4 {
 		case 0:
-			if op.a%2 == 0 {
+			if op.c%3 == 0 {
 				ch = l.With(zap.Int("t", t))
-			} else if op.a%4 == 1 {
+			} else if op.c%3 == 1 {
 				ch = l.With(zap.Reflect("r", map[string]int{"t": t}), zap.Any("s", struct{ A, B int }{t, i}))
 			} else {
 				ch = l.With(richFields(op.b+t, i)...)
